@@ -104,4 +104,9 @@ spec resultBin(op BinaryOperator, l int, r int) int :=
   (op == BIN_DIV ? 2 :
   ((op == BIN_MOD || bitwise(op)) ? ((l == 3 && r == 3) ? 3 : 1) :
   (shift(op) ? l : 4)))
+
+// a function whose body is "in <file> definiert" (the declaration carries the file name token)
+func IsExternFunc [C18]
+  pure
+  ensures result <==> (fun != nil && fun.ExternFile.Type == token.STRING)
 @*/
